@@ -28,10 +28,12 @@ pub fn frames_strategy(max_trees: usize, allow_zero: bool) -> BoxedStrategy<usiz
 }
 
 fn slots(max: usize, allow_zero: bool) -> BoxedStrategy<usize> {
+    // mostly 1..=max slots; now and then many more (the slot index arithmetic and the size of
+    // the local metadata depend on the count)
     if allow_zero {
-        prop_oneof![5 => 1..=max, 1 => Just(0usize)].boxed()
+        prop_oneof![20 => 1..=max, 4 => Just(0usize), 1 => max + 1..=17].boxed()
     } else {
-        (1..=max).boxed()
+        prop_oneof![20 => 1..=max, 1 => max + 1..=17].boxed()
     }
 }
 
@@ -75,15 +77,37 @@ pub fn config_strategy(
     allow_zero_slots: bool,
     with_invalid: bool,
 ) -> BoxedStrategy<Config> {
-    (
-        frames_strategy(max_trees, allow_zero_frames),
-        init_strategy(),
-        class_strategy(allow_zero_slots, with_invalid),
-    )
+    let frames = if max_trees >= 4 {
+        // mostly small allocators (cheap cases, every boundary of the last tree), one case in
+        // sixteen with 5..=24 trees: searches that alternate around a start index, candidate
+        // caches and metadata padding periods only differ there
+        prop_oneof![
+            15 => frames_strategy(max_trees, allow_zero_frames),
+            1 => many_trees_strategy(),
+        ]
+        .boxed()
+    } else {
+        frames_strategy(max_trees, allow_zero_frames)
+    };
+    (frames, init_strategy(), class_strategy(allow_zero_slots, with_invalid))
         .prop_map(|(frames, init, classes)| Config {
             frames,
             init,
             classes,
         })
+        .boxed()
+}
+
+/// 5..=24 trees, the last one whole, cut at a huge-frame boundary, or cut anywhere.
+pub fn many_trees_strategy() -> BoxedStrategy<usize> {
+    (
+        5usize..=24,
+        prop_oneof![
+            3 => Just(0usize),
+            2 => (0..TREE_FRAMES / HUGE_FRAMES).prop_map(|h| h * HUGE_FRAMES),
+            2 => 1..TREE_FRAMES,
+        ],
+    )
+        .prop_map(|(t, r)| if r == 0 { t * TREE_FRAMES } else { (t - 1) * TREE_FRAMES + r })
         .boxed()
 }
